@@ -75,6 +75,7 @@ type sessionTracker struct {
 // RemoteLogin validates and checks if there is an auditd session already present for the
 // RemoteLogin passed as parameter. It modifies the user object by setting the remote login information.
 func (o *sessionTracker) RemoteLogin(rul common.RemoteUserLogin) error {
+	defer common.VerifLock(&o.mtx)()
 	o.mtx.Lock()
 	defer o.mtx.Unlock()
 
@@ -167,6 +168,7 @@ func (o *sessionTracker) AuditdEvent(event *aucoalesce.Event) error {
 	// TODO: Handle the "SystemAction" type (where session == "unset").
 	//  ps: "unset" is a string.
 
+	defer common.VerifLock(&o.mtx)()
 	o.mtx.Lock()
 	defer o.mtx.Unlock()
 
@@ -319,6 +321,7 @@ func (o *sessionTracker) auditEventWithoutSession(event *aucoalesce.Event, debug
 // DeleteUsersWithoutLoginsBefore it takes a time parameter. It iterates over active audit sessions.
 // If the session is added before the timestamp and the user does not have a remote login, then it deletes that session.
 func (o *sessionTracker) DeleteUsersWithoutLoginsBefore(t time.Time) {
+	defer common.VerifLock(&o.mtx)()
 	o.mtx.Lock()
 	defer o.mtx.Unlock()
 
@@ -351,6 +354,7 @@ func (o *sessionTracker) DeleteUsersWithoutLoginsBefore(t time.Time) {
 // It iterates over remote user logins and checks if a login was before the timestamp,
 // then it deletes that remote user login.
 func (o *sessionTracker) DeleteRemoteUserLoginsBefore(t time.Time) {
+	defer common.VerifLock(&o.mtx)()
 	o.mtx.Lock()
 	defer o.mtx.Unlock()
 
